@@ -27,9 +27,10 @@ EXTENDS Integers, Sequences, FiniteSets, TLC
 
 CONSTANT Dev      \* subset of {"parser-init-unsynchronised", "load-decoder-shared"}
 
-Kinds == {"plain", "sort", "sortby", "interp", "yamlrt", "load", "multidoc", "reduce", "litupd", "commentdoc", "csv"}
+\* regexa / regexb, suba / subb, interp / interpb: ONE expression text (one parsed tree when the objects are shared) on different documents
+Kinds == {"plain", "sort", "sortby", "interp", "yamlrt", "load", "multidoc", "reduce", "litupd", "commentdoc", "csv", "regexa", "regexb", "interpb", "suba", "subb"}
 Steps(k) == CASE k = "load" -> <<"parse", "decode", "eval", "loadfile", "encode">>
-              [] k = "interp" -> <<"parse", "decode", "eval", "parse", "encode">>        \* string interpolation parses again while evaluating
+              [] k \in {"interp", "interpb", "regexa", "regexb", "suba", "subb"} -> <<"parse", "decode", "eval", "parse", "encode">>        \* string interpolation parses again while evaluating
               [] k = "csv" -> <<"parse", "decode", "snippet", "eval", "encode">>          \* cell values are typed by parsing snippets
               [] OTHER -> <<"parse", "decode", "eval", "encode">>
 
